@@ -12,6 +12,8 @@
 //      unsegmented stream, for the generated cuts, for one-frame-per-segment and (streams <= 3000 bytes) for
 //      byte-by-byte delivery; no call returns < 0 or more than it was given; nothing but separator white
 //      space stays unconsumed.
+//   3. statelessness: one decoder object is first given the longest frame without its last byte (connection dropped mid-message),
+//      then every frame alone on a connection of its own, shortest first: each decodes to exactly its own messages.
 //   (packet proto: one datagram per message; "segmentation" is whole-message delivery only.)
 // Domain: strings are valid UTF-8 (nlohmann's dump() refuses anything else by design), numbers are finite,
 // nesting depth <= 6, ids are ints.
@@ -246,7 +248,47 @@ std::string run(const Scenario &s, CaseInfo &info) {
     if (stream.size() <= 3000 && !(e = decodeRun("byte by byte", everyByte(stream.size()))).empty()) return e;
   }
 
+  // ---- statelessness across connections: ONE decoder object; first the longest frame of the stream without its last byte (a connection
+  // that is dropped in the middle of a message: the fragment is abandoned with the receive buffer), then every frame on a connection of
+  // its own (buffer from offset 0), shortest first.  Each must decode exactly as on a fresh object, i.e. to its own messages.
+  bool reused = false;
+  if (bounds.size() >= 1) {
+    struct Fr { size_t begin, end, ev_begin, ev_end; };
+    std::vector<Fr> frs; size_t at = 0, evi = 0;
+    for (size_t i = 0, fi = 0; i < msgs.size(); ++fi) {
+      size_t n = 1; if (msgs[i].batch >= 0) { n = 0; while (i + n < msgs.size() && msgs[i + n].batch == msgs[i].batch) ++n; }
+      frs.push_back(Fr{at, bounds[fi], evi, evi + n}); at = bounds[fi] + strlen(kSeps[sep]); evi += n; i += n;
+    }
+    size_t longest = 0; for (size_t i = 1; i < frs.size(); ++i) if (frs[i].end - frs[i].begin > frs[longest].end - frs[longest].begin) longest = i;
+    auto dec = mkProto(proto);
+    if (log) TrafficLog::enable(*dec, "c14-dec");
+    Recorder rec; rec.attach(*dec);
+    dec->setSendCallback([](const void *, size_t) {});
+    std::string frag = stream.substr(frs[longest].begin, frs[longest].end - frs[longest].begin - 1);
+    if (frag.size() >= 2 && proto != P_PACKET) {
+      FeedResult fr = feed(*dec, proto, frag, {});
+      if (!fr.err.empty()) return std::string(kProtoName[proto]) + ", abandoned fragment: " + fr.err;
+      if (!rec.evs.empty() || fr.status != 0) return std::string(kProtoName[proto]) + ": a frame without its last byte produced " + std::to_string(rec.evs.size()) + " callbacks / return " + std::to_string(fr.neg_ret);
+      reused = true;
+    }
+    std::vector<size_t> order(frs.size()); for (size_t i = 0; i < order.size(); ++i) order[i] = i;
+    std::stable_sort(order.begin(), order.end(), [&](size_t a, size_t b2) { return frs[a].end - frs[a].begin < frs[b2].end - frs[b2].begin; });
+    for (size_t oi : order) {
+      rec.evs.clear();
+      std::string one = stream.substr(frs[oi].begin, frs[oi].end - frs[oi].begin);
+      FeedResult fr = feed(*dec, proto, one, {});
+      std::vector<Ev> want(expected.begin() + (long)frs[oi].ev_begin, expected.begin() + (long)frs[oi].ev_end);
+      std::string pre = std::string(kProtoName[proto]) + ", frame " + std::to_string(oi) + " (" + std::to_string(one.size()) + " bytes) alone on a new connection, decoder object re-used after an abandoned fragment of " + std::to_string(frag.size()) + " bytes: ";
+      if (!fr.err.empty()) return pre + fr.err;
+      std::string d = diffEvs(want, rec.evs);
+      if (fr.status != 0) return pre + "onRecvData returned " + std::to_string(fr.neg_ret);
+      if (!d.empty()) return pre + d + " (a fresh decoder object delivers it)";
+      if (proto != P_PACKET && fr.leftover != 0) return pre + std::to_string(fr.leftover) + " bytes left unconsumed";
+    }
+  }
+
   info.cls(kProtoName[proto]);
+  info.cls_if(reused && bounds.size() >= 2, "decoder_object_reused_after_abandoned_fragment");
   bool has[4] = {false, false, false, false};
   for (auto &m : msgs) { has[m.kind - REQUEST] = true; }
   info.cls_if(has[0], "request_with_id"); info.cls_if(has[1], "notification"); info.cls_if(has[2], "result"); info.cls_if(has[3], "error");
